@@ -48,6 +48,7 @@ import PyhamModel.Lemmas.FilterIdentical
 import PyhamModel.Lemmas.FilterFaults
 import PyhamModel.Lemmas.Meaning
 import PyhamModel.Lemmas.FamilyProfile
+import PyhamModel.Lemmas.Iso
 namespace Pyham.Props
 open Pyham
 
@@ -486,6 +487,34 @@ theorem C14_same_histories_same_hierarchies (D D' : Dataset) (hc : D.Consistent)
       ∀ i (h1 : i < H.tops.length) (h2 : i < H'.tops.length),
         SameL (spell false false (H.tops[i]).2) (spell false false (H'.tops[i]).2) :=
   same_histories_same_hierarchies D D' hc hc' hT hlen hs
+
+/-- **comparisons see nothing but the located-member structure**: if the located members of `H'` are the images under `φ`
+    of those of `H` -- whatever the order in which families, children and duplication records are stored, whatever the
+    numbering of objects, ids and annotations -- and `φ` keeps taxon, "arose by duplication" and distinctness of
+    identities (`LocIso`), then every cluster of every vertical comparison of `H'` is the image of the corresponding
+    cluster of `H`: nothing else can influence a comparison result (C13 / C14 / C11 "... or any comparison result") -/
+theorem C14_comparisons_respect_isomorphism (H H' : Ham) (φ : Node → Node) (h : LocIso H H' φ) (hw : H.WFc) (hw' : H'.WFc)
+    (a d : Taxon) :
+    (∀ n', n' ∈ (hogsMap H' a d).gain ↔ ∃ n ∈ (hogsMap H a d).gain, n' = φ n) ∧
+    (∀ p', p' ∈ (hogsMap H' a d).retained ↔ ∃ p ∈ (hogsMap H a d).retained, p' = (φ p.1, φ p.2)) ∧
+    (∀ k' n', (∃ e' ∈ (hogsMap H' a d).dupl, e'.1.key = k' ∧ n' ∈ e'.2) ↔
+        ∃ x n, H.occ x ∧ (∃ e ∈ (hogsMap H a d).dupl, e.1.key = x.key ∧ n ∈ e.2) ∧ k' = (φ x).key ∧ n' = φ n) ∧
+    (∀ x', x' ∈ (hogsMap H' a d).loss ↔ ∃ x ∈ (hogsMap H a d).loss, x' = φ x) :=
+  ⟨fun n' => iso_gain h a d n', fun p' => iso_retained h hw hw' a d p', fun k' n' => iso_duplicated h a d k' n',
+   fun x' => iso_loss h hw hw' a d x'⟩
+
+/-- instances of the hypothesis: the same analysis (identity), the families stored in another order (a file with its
+    top-level groups re-ordered), every object renumbered (other or skipped families loaded before: the creation
+    counter differs, `C11_family_identical`), the children of every HOG re-ordered by an arbitrary rule `f` (the
+    members of any group written in another order; with distinct identities `f` can pick a different permutation
+    for every HOG) -/
+theorem C14_isomorphic_analyses (H : Ham) :
+    LocIso H H id ∧
+    (∀ H' : Ham, H'.tops.Perm H.tops → H'.genes = H.genes → LocIso H H' id) ∧
+    (∀ k, LocIso H (H.renumber k) (Node.shift k)) ∧
+    (∀ f : List Node → List Node, (∀ l, (f l).Perm l) → LocIso H (H.reorder f) (Node.reorder f)) :=
+  ⟨LocIso.refl H, fun H' hp hg => LocIso.of_tops_perm H H' hp hg, fun k => LocIso.of_renumber H k,
+   fun f hf => LocIso.of_reorder H f hf⟩
 
 /-- **nested vs flat paralogGroups** (a multi-copy duplication written as directly nested paralogGroups or as
     one flat paralogGroup): if the flattened spelling of a file loads, the nested spelling loads to the SAME
